@@ -65,7 +65,27 @@ func vfC11Gen(rt *rapid.T) *vfC11Case {
 			healthy[n] = b == "ok"
 		}
 	}
+	storm := rapid.IntRange(0, 4).Draw(rt, "expirystorm") == 0
+	if storm {
+		// many clients whose own budget runs out while a slow but answering authority is still working on them, then a
+		// client with its whole budget: other clients' expiry is no evidence against that authority
+		c.Timeout, c.Capacity = 10*time.Second, 1000
+		c.Behave["zs"] = "slow1"
+		owners := map[string][]uint16{}
+		for _, l := range []string{"a", "b", "c", "d", "e", "f", "g", "h", "i"} {
+			owners[l+".zs.test."] = []uint16{dns.TypeA}
+		}
+		specs = append(specs, vfworld.ZoneSpec{Apex: "zs.test.", Servers: 1, Owners: owners})
+	}
 	c.W = vfworld.Build(specs)
+	if storm {
+		n := rapid.IntRange(5, 8).Draw(rt, "stormclients")
+		for i := 0; i < n; i++ {
+			c.Clients = append(c.Clients, vfC11Client{Name: string(rune('a'+i)) + ".zs.test.", Offset: time.Duration(i*rapid.SampledFrom([]int{0, 5, 40}).Draw(rt, "stormgap")) * time.Millisecond,
+				Queued: c.Timeout - time.Duration(rapid.SampledFrom([]int{200, 400, 900}).Draw(rt, "stormleft"))*time.Millisecond, Wire: rapid.Bool().Draw(rt, "wire"), EDNS: true})
+		}
+		c.Clients = append(c.Clients, vfC11Client{Name: "i.zs.test.", Offset: time.Duration(rapid.SampledFrom([]int{1500, 2500, 4000}).Draw(rt, "stormafter")) * time.Millisecond, EDNS: true, Healthy: true, Wire: rapid.Bool().Draw(rt, "wire")})
+	}
 	k := rapid.IntRange(2, 12).Draw(rt, "nclients")
 	for i := 0; i < k; i++ {
 		cl := vfC11Client{Name: rapid.SampledFrom(names).Draw(rt, "name"), Offset: time.Duration(rapid.SampledFrom([]int{0, 0, 0, 1, 20, 500, 2500}).Draw(rt, "offset")) * time.Millisecond,
